@@ -22,6 +22,7 @@ import GomlVerif.Driver.C09
 import GomlVerif.Driver.GoComp
 import GomlVerif.Driver.C01pipe
 import GomlVerif.Driver.Unify
+import GomlVerif.Driver.Solve
 
 def main (args : List String) : IO UInt32 := do
   match args with
@@ -51,4 +52,5 @@ def main (args : List String) : IO UInt32 := do
   | ["gocomp"] => Goml.Driver.GoComp.main; return 0
   | ["c01pipe"] => Goml.Driver.C01pipe.main; return 0
   | ["unify"] => Goml.Driver.Unify.main; return 0
+  | ["solve"] => Goml.Driver.Solve.main; return 0
   | _ => IO.eprintln "usage: gomlmodel <c05|…> < lines"; return 2
